@@ -4,7 +4,7 @@ import glob, json, os
 ROOT = "/verif/seeded"
 HEAD = """# Seeded changes: which check catches which change
 
-Every change was produced by an independent sub-agent (property text + scratch worktree only; round 2 additionally got a one-paragraph summary of the round-1 change, rounds 3-7 of all earlier changes, to be avoided), confirmed in a scratch worktree (patch applies, repository suite passes with it: `2939 passed, 23 xfailed, 2 xpassed`, `demo.py` exits 1 with / 0 without it) and then run against the quick tier of the property's check with the patch applied to /repo (undone afterwards). `first` = exit code of the check as it was when the change arrived, `now` = after strengthening (1 = VIOLATION reported).
+Every change was produced by an independent sub-agent (property text + scratch worktree only; round 2 additionally got a one-paragraph summary of the round-1 change, rounds 3-8 of all earlier changes, to be avoided), confirmed in a scratch worktree (patch applies, repository suite passes with it: `2939 passed, 23 xfailed, 2 xpassed`, `demo.py` exits 1 with / 0 without it) and then run against the quick tier of the property's check with the patch applied to /repo (undone afterwards). `first` = exit code of the check as it was when the change arrived, `now` = after strengthening (1 = VIOLATION reported).
 
 | seed | property | first | now | first violation signature now | also caught by | what it needs to manifest |
 |---|---|---|---|---|---|---|
